@@ -95,6 +95,8 @@ class FakeSocket:
         return ("fakesock", self._s, self._timeout if self._timeout is not NO_SCOPE else "unset", self._closed)
 
     def settimeout(self, t):
+        if self._closed or (self._s is not None and self._s._tr.closed):
+            raise OSError(9, "Bad file descriptor")      # what a closed socket.socket answers
         self._timeout = t
 
     def setsockopt(self, *a):
